@@ -8,11 +8,15 @@ The disk holds three kinds of objects:
   = the table reader LOADS it and it shows `cells`, or `part hasMeta` = it exists but does NOT load —
   `part false`: meta.pb.bin missing or empty (`isUnfinishedTable`: recovery removes it), `part true`: the metadata
   is there but another file is gone (a half-executed RemoveAll of a finished table; recovery fails on it).
-  QUIRK (as coded): the reader does not need the metadata.  A directory whose index.rio and data.rio have their
-  file headers loads even while meta.pb.bin is still empty — as a "version 0" table that shows whatever the
-  version-0 reader makes of the files (nothing for header-only files, mis-parsed values otherwise).  Such a
-  directory is `complete junk` here (event `tblLoadable`); recovery keeps it as a live table.  A table writer goes
-  through such states between creating its files and writing the metadata (the last write);
+  As coded now: recovery discards a directory whose meta.pb.bin EXISTS AND IS EMPTY before trying to load it
+  (`hasEmptyMetadata`: the table writer creates the metadata file when it opens and fills it with its last write),
+  whatever the state of the other files: that is `part false`, too.
+  QUIRK (as coded): the reader does not need a metadata FILE.  A directory without meta.pb.bin whose index.rio and
+  data.rio have their headers loads as a "version 0" (legacy) table and recovery keeps it: `complete cells` with
+  whatever the version-0 reader shows.  This happens (a) in a table writer between the creation of data.rio and
+  the creation of meta.pb.bin — the files hold no records yet: `tblLoadable g []`, followed by `tblMetaCreate g` —
+  and (b) when a `RemoveAll` of a table directory unlinks meta.pb.bin BEFORE index.rio / data.rio: `tblLoadable g junk`
+  with mis-parsed content supplied from outside (`AStep.junk`, `detour`);
 * WAL files `wal/%06d.wal` in number order: header written or not, the complete records, and whether a piece
   of a further record follows (torn tail);
 * compaction directories `sstable_compaction*`: the table being written and the success flag file
@@ -122,7 +126,8 @@ inductive Ev where
   | walUnlink (n : Nat)
   | tblMkdir (g : Nat)
   | tblProgress (g : Nat)                    -- any create/write that leaves the table incomplete
-  | tblLoadable (g : Nat) (cells : Layer)    -- files have headers / data, metadata still empty: loads as a version-0 table
+  | tblLoadable (g : Nat) (cells : Layer)    -- index.rio + data.rio load and there is NO metadata file: a version-0 table
+  | tblMetaCreate (g : Nat)                  -- the (empty) metadata file is created: an unfinished table again
   | tblComplete (g : Nat) (cells : Layer)    -- the metadata write (the last one of a table writer)
   | compMkdir (id : Nat)
   | compProgress (id : Nat)
@@ -149,6 +154,7 @@ def applyEv (d : Disk) : Ev → Disk
   | .tblMkdir g => { d with tables := insertT g (.part false) d.tables }
   | .tblProgress _ => d
   | .tblLoadable g cells => { d with tables := updT g (fun _ => .complete cells) d.tables }
+  | .tblMetaCreate g => { d with tables := updT g (fun _ => .part false) d.tables }
   | .tblComplete g cells => { d with tables := updT g (fun _ => .complete cells) d.tables }
   | .compMkdir id =>
     if d.comps.any (·.id == id) then d else { d with comps := d.comps ++ [{ id := id }] }
@@ -306,30 +312,47 @@ def cleanRun : Nat → Disk → List Ev
 
 def cleanEvents (d : Disk) : List Ev := cleanRun (mu d) d
 
-/-- an unfinished table that already loads only shows keys of the store being flushed (its index is a prefix of
-the final index); what it shows for them is unspecified (`junk`, supplied from outside) -/
+/-- an unfinished table only holds records of a store whose WAL file still exists: what it shows when it loads
+(`junk`, supplied from outside) is restricted to keys the log binds -/
 def restrictTo (r : Layer) (junk : Layer) : Layer := junk.filter fun p => (r.get p.1).isSome
 
-/-- the loadable-but-unfinished states a table writer for the store `r` passes through -/
-def junkEvs (g : Nat) (r : Layer) (junks : List Layer) : List Ev := junks.map fun j => Ev.tblLoadable g (restrictTo r j)
-
-def phase3Events (d : Disk) (junks : List Layer := []) : List Ev :=
+def phase3Events (d : Disk) : List Ev :=
   (if d.walDir then [] else [.walDirCreate]) ++
   if !walReadable d.wal then [] else
   let g := maxGen (tblsOf d.tables)
   let ms := walMuts d.wal
-  (if ms.isEmpty then [] else [.tblMkdir (g + 1), .tblProgress (g + 1)] ++ junkEvs (g + 1) (applyMuts [] ms) junks ++
-      [.tblComplete (g + 1) (applyMuts [] ms)]) ++
+  -- the recovery flush: directory, index.rio + data.rio with headers (loads as an empty legacy table), empty
+  -- metadata file, the records, the metadata
+  (if ms.isEmpty then [] else [.tblMkdir (g + 1), .tblLoadable (g + 1) [], .tblMetaCreate (g + 1), .tblProgress (g + 1),
+      .tblComplete (g + 1) (applyMuts [] ms)]) ++
   -- the log files go oldest first, then the directory is removed and re-created with a fresh file
   d.wal.map (fun f => Ev.walUnlink f.num) ++ [.walDirRemove, .walDirCreate, .walCreate 0, .walHeader 0]
 
-/-- the calls `Open` makes on this disk, in order (`junks`: what the table written by the recovery flush is seen
-to load as before its metadata is written) -/
-def recoverEvents (d : Disk) (junks : List Layer := []) : List Ev :=
-  cleanEvents d ++
+def lookupJ (junk : List (Nat × Layer)) (g : Nat) : Option Layer := (junk.find? (·.1 == g)).map (·.2)
+
+/-- `RemoveAll` orders that unlink meta.pb.bin first: before the first unlink of a complete table and before the
+removal of an unfinished one, the directory may be seen WITHOUT metadata file but with loadable index.rio / data.rio,
+i.e. as a legacy table showing `junk g`.  While compaction directories exist the table is an input of the flagged
+compaction (deleted again, content irrelevant); otherwise it is an unfinished table and shows logged keys only. -/
+def detourPre (junk : List (Nat × Layer)) (d : Disk) (g : Nat) : List Ev :=
+  match lookupJ junk g with
+  | none => []
+  | some j => [.tblLoadable g (if d.comps.isEmpty then restrictTo (applyMuts [] (walMuts d.wal)) j else j)]
+
+def detour (junk : List (Nat × Layer)) : Disk → List Ev → List Ev
+  | _, [] => []
+  | d, e :: es =>
+    (match e with
+      | .tblUnlinkPart g true => detourPre junk d g
+      | .tblRmdir g => detourPre junk d g
+      | _ => []) ++ e :: detour junk (applyEv d e) es
+
+/-- the calls `Open` makes on this disk, in order (`junk`: see `detour`) -/
+def recoverEvents (d : Disk) (junk : List (Nat × Layer) := []) : List Ev :=
+  detour junk d (cleanEvents d) ++
   match phase2 (phase1 d) with
   | .error _ => []
-  | .ok d2 => phase3Events d2 junks
+  | .ok d2 => phase3Events d2
 
 /-! ## sessions at event granularity
 
@@ -347,12 +370,12 @@ structure Vol where
   deriving Repr
 
 /-- `executeFlush` -/
-def flushEvs (v : Vol) (junks : List Layer := []) : List Ev × Vol :=
+def flushEvs (v : Vol) : List Ev × Vol :=
   if !v.s.flushPending then ([], v)
   else if v.s.r.isEmpty then ([], { v with s := flushStep v.s, walOld := none })   -- skipped: the WAL file stays
   else
     let g := v.s.gen + 1
-    ([.tblMkdir g, .tblProgress g] ++ junkEvs g v.s.r junks ++ [.tblComplete g v.s.r] ++
+    ([.tblMkdir g, .tblLoadable g [], .tblMetaCreate g, .tblProgress g, .tblComplete g v.s.r] ++
        (match v.walOld with | some n => [.walUnlink n] | none => []),
      { v with s := flushStep v.s, walOld := none })
 
@@ -361,8 +384,8 @@ def drainEvs (c : Nat) (q : List Mutation) : List Ev := q.flatMap fun m => [.wal
 
 /-- `rotateWalAndFlushMemstore`: (the flusher finishes the previous store,) the current file is closed — which
 writes out its buffer —, the next file is created with its header, the write store is handed over -/
-def rotateEvs (v : Vol) (junks : List Layer := []) : List Ev × Vol :=
-  let (e1, v1) := flushEvs v junks
+def rotateEvs (v : Vol) : List Ev × Vol :=
+  let (e1, v1) := flushEvs v
   (e1 ++ drainEvs v1.walCur v1.queue ++
      [.walClose v1.walCur, .walCreate (v1.walCur + 1), .walHeader (v1.walCur + 1)],
    { s := rotate v.s, walCur := v1.walCur + 1, walOld := some v1.walCur, queue := [] })
@@ -380,8 +403,14 @@ def usable (s : State) : Bool := s.isOpen && !s.closed
 
 def freshId (d : Disk) : Nat := (d.comps.map (·.id)).foldl max 0 + 1
 
+/-- the calls of a `RemoveAll` of a complete table directory; an order that unlinks the metadata first passes
+through a directory that loads as a legacy table showing `jo` -/
+def rmAll (g : Nat) (jo : Option Layer) : List Ev :=
+  (match jo with | some j => [Ev.tblLoadable g j] | none => []) ++
+    [.tblUnlinkPart g true, .tblUnlinkPart g false, .tblRmdir g]
+
 /-- `executeCompaction` + `reflectCompactionResult` -/
-def compactEvs (d : Disk) (v : Vol) (sizes : List Nat) : List Ev × Vol :=
+def compactEvs (d : Disk) (v : Vol) (sizes : List Nat) (junk : List (Nat × Layer) := []) : List Ev × Vol :=
   let (s', sel) := compactStep v.s sizes
   match sel with
   | [] => ([], v)
@@ -392,7 +421,7 @@ def compactEvs (d : Disk) (v : Vol) (sizes : List Nat) : List Ev × Vol :=
       | none => []
     ([.compMkdir id, .compProgress id, .compComplete id cells, .compProgress id,
        .compFlag id { inputs := sel, replacement := r }] ++
-       sel.flatMap (fun g => [Ev.tblUnlinkPart g true, .tblUnlinkPart g false, .tblRmdir g]) ++
+       sel.flatMap (fun g => rmAll g (lookupJ junk g)) ++
        [.compRename id r],
      { v with s := s' })
 
@@ -401,7 +430,7 @@ structure AStep where
   st : Step
   drain : Nat := 0
   torn : Bool := false
-  junk : List Layer := []   -- what unfinished tables written during this step are seen to load as (any)
+  junk : List (Nat × Layer) := []   -- per table number: what a half-removed directory without metadata file shows
   deriving Repr
 
 /-- the mutation a client call logs, if the call is accepted in this state -/
@@ -424,10 +453,10 @@ def stepRotates (s : State) : Step → Bool
   | _ => false
 
 def writeEvs (async : Bool) (v : Vol) (m : Mutation) (rot : Bool) (drain : Nat) (torn : Bool)
-    (junks : List Layer := []) : List Ev × Vol :=
+    : List Ev × Vol :=
   let (e1, v1) := logEvs async { v with s := { v.s with w := Mutation.apply v.s.w m } } m drain torn
   if rot then
-    let (e2, v2) := rotateEvs v1 junks
+    let (e2, v2) := rotateEvs v1
     (e1 ++ e2, v2)
   else (e1, v1)
 
@@ -436,28 +465,28 @@ def fsStep (async : Bool) (d : Disk) (v : Vol) (a : AStep) : List Ev × Vol :=
   match a.st with
   | .putB k val rot =>
     (match stepMut v.s (.putB k val rot) with
-     | some m => writeEvs async v m rot a.drain a.torn a.junk
+     | some m => writeEvs async v m rot a.drain a.torn
      | none => ([], v))
   | .putS k val rot =>
     (match stepMut v.s (.putS k val rot) with
-     | some m => writeEvs async v m rot a.drain a.torn a.junk
+     | some m => writeEvs async v m rot a.drain a.torn
      | none => ([], v))
   | .delB k =>
     (match stepMut v.s (.delB k) with
-     | some m => writeEvs async v m false a.drain a.torn a.junk
+     | some m => writeEvs async v m false a.drain a.torn
      | none => ([], v))
   | .delS k =>
     (match stepMut v.s (.delS k) with
-     | some m => writeEvs async v m false a.drain a.torn a.junk
+     | some m => writeEvs async v m false a.drain a.torn
      | none => ([], v))
   | .get _ => ([], v)
-  | .rotate => if usable v.s then rotateEvs v a.junk else ([], v)
-  | .flush => flushEvs v a.junk
-  | .compact sizes => if usable v.s then compactEvs d v sizes else ([], v)
+  | .rotate => if usable v.s then rotateEvs v else ([], v)
+  | .flush => flushEvs v
+  | .compact sizes => if usable v.s then compactEvs d v sizes a.junk else ([], v)
   | .close =>
     if usable v.s then
-      let (e1, v1) := rotateEvs v a.junk
-      let (e2, v2) := flushEvs v1 a.junk
+      let (e1, v1) := rotateEvs v
+      let (e2, v2) := flushEvs v1
       (e1 ++ e2 ++ [.walClose v2.walCur], { v2 with s := { v2.s with closed := true } })
     else ([], v)
   | .reopen o =>
